@@ -26,7 +26,12 @@ RULE = (
     "and beyond every border, 0..3 offsets, order 0..5, four boundary modes, cval, both return forms and both "
     "extraction paths. Write-back passes offset and offset_index together, singly or not at all, through the methods, the "
     "around-landmarks forms and the module function. A last clause pins the bounds helpers (bounds_true / bounds_false / "
-    "constrain_points_to_bounds / constrain_landmarks_to_bounds) against np.nonzero / np.clip. Non-trivial: a crop request that crosses a border or is fractional; a patch set that is partly "
+    "constrain_points_to_bounds / constrain_landmarks_to_bounds) against np.nonzero / np.clip. The path-equivalence clause runs the two "
+    "paths in either order on one PointCloud / offsets object, optionally after a resampling call on them, and the write-back clause "
+    "optionally starts with a resampling call on its centres; a re-use clause hands one set of argument objects (PointCloud over a copy of / "
+    "directly on a float64 / float32 / int centres array, landmark group or bare array; patch_shape; sample_offsets; crop min / max) to "
+    "2..4 calls drawn from every extraction, write-back and crop entry point, judging every call against the values the caller created "
+    "and every argument object against its state before the call. Non-trivial: a crop request that crosses a border or is fractional; a patch set that is partly "
     "outside the image or an image whose channel count is not 3; a write-back with at least two patches, an offset or a non-square patch. "
     "Distinct = distinct canonical-JSON digest of the case."
 )
@@ -44,6 +49,7 @@ ASSUMPTIONS = [
     "cval is drawn representable in the image dtype (integer for integer images, 0/1 for bool): the two paths cast unrepresentable fill values differently and the property does not cover that",
     "order-1 results on integer images are compared within 0.5 (+1e-6) of the real-valued bilinear reference (scipy rounds to the output dtype)",
     "write-back uses interior, pairwise non-overlapping patch grids by construction; offsets for set_patches are integer",
+    "re-use clause: 'unchanged' is judged on public values (the centres / offsets / patch_shape / min / max arrays element-wise with dtype, digest.parameter_mutation for the PointCloud and the image); set_patches (methods) returns a copy per its docstring, so the receiver must be unchanged too; the module function set_patches is handed a copy of the pixels; set steps use interior, pairwise disjoint patches (centres with fractional part < 1/2) and offsets within the padding; crop steps always constrain, and a degenerate / empty request is only checked for leaving its arguments alone",
     "sample_offsets are passed as ndarray (documented type); a list / tuple is refused by both paths alike (AttributeError on .shape) and is not exercised",
 ]
 
@@ -790,7 +796,11 @@ def s_paths(draw):
     centres, _ = draw(s_centres(H, W, ph, pw, integer=True))
     offsets = draw(s_offsets(frac_ok=False))
     return {"img": img, "pshape": [ph, pw], "centres": centres, "offsets": offsets, "cval": draw(s_cval(img["dtype"])),
-            "int_offsets": draw(st.booleans())}
+            "int_offsets": draw(st.booleans()),
+            # which path runs first on the SAME PointCloud / offsets objects, and whether a resampling call (other
+            # mode / order) on those objects came before both
+            "first": draw(st.sampled_from(["slice", "sampling"])),
+            "warm": draw(st.sampled_from([None, None, "nearest", "order1"]))}
 
 
 def c_paths(case, ctx):
@@ -811,8 +821,23 @@ def c_paths(case, ctx):
         c["cls"], c["shape"], c["ch"], c["dtype"], case["pshape"], centres, offsets, cval)
     pc = PointCloud(np.array(centres, dtype=float))
     oarg = _offsets_arg(case)
-    a = im.extract_patches(pc, patch_shape=(ph, pw), sample_offsets=oarg, order=0, mode="constant", cval=cval)
-    b = extract_patches_by_sampling(im.pixels, pc.points, (ph, pw), offsets=oarg, order=0, mode="constant", cval=cval)
+    first, warm = case.get("first", "slice"), case.get("warm")
+    ctx.event("first=%s warm=%s" % (first, warm))
+    okeep = None if oarg is None else oarg.copy()
+    before = digest(im)
+    if warm is not None:
+        im.extract_patches(pc, patch_shape=(ph, pw), sample_offsets=oarg, cval=cval,
+                           **({"order": 0, "mode": "nearest"} if warm == "nearest" else {"order": 1, "mode": "constant"}))
+    a = b = None
+    for which in ((first, "sampling") if first == "slice" else (first, "slice")):
+        if which == "slice":
+            a = im.extract_patches(pc, patch_shape=(ph, pw), sample_offsets=oarg, order=0, mode="constant", cval=cval)
+        else:
+            b = extract_patches_by_sampling(im.pixels, pc.points, (ph, pw), offsets=oarg, order=0, mode="constant", cval=cval)
+    ctx.expect(pc.points.dtype == np.float64 and np.array_equal(pc.points, np.array(centres, dtype=float)), "paths.centres_mutated",
+               lambda: "%s first=%s warm=%s: centres now %r" % (info, first, warm, pc.points.tolist()))
+    ctx.expect(oarg is None or (oarg.dtype == okeep.dtype and np.array_equal(oarg, okeep)), "paths.sample_offsets_mutated", info)
+    ctx.expect(parameter_mutation(before, digest(im)) is None, "paths.source_mutated", info)
     assert known.all()
     ctx.expect(eq_exact(a, b), "paths.slice_vs_sampling", lambda: "%s: %s" % (info, short(a, b)))
     compare_patches(ctx, a, want, known, alt, c["dtype"], 0, "paths.slice_vs_reference", info)
@@ -851,6 +876,8 @@ def s_writeback(draw):
             "via": draw(st.sampled_from(["method", "method", "landmarks", "landmarks", "fn"])), "gseed": draw(st.integers(0, 2**16))}
     # which of offset / offset_index are passed: a missing offset means (0, 0), a missing index means patches[:, 0]
     case["kwform"] = draw(st.sampled_from(["both", "both", "offset_only", "index_only"])) if use_offsets else "none"
+    # a resampling-path extraction on the same centres / offsets objects before anything is written
+    case["warm"] = draw(st.sampled_from([None, None, "nearest", "order1", "sampling_fn"]))
     if case["via"] == "landmarks" and draw(st.booleans()):
         img["lms"] = []  # the centres are the only group: the group argument is left out
         case["omit_group"] = True
@@ -917,6 +944,16 @@ def c_writeback(case, ctx):
     gkw = {} if (case.get("omit_group") and not c.get("lms")) else {"group": "pc"}
     if use_lm and not gkw:
         ctx.event("group omitted")
+
+    warm = case.get("warm")
+    ctx.event("warm=%s" % warm)
+    if warm is not None:
+        wpc = im.landmarks["pc"] if use_lm else pc  # the object the later calls read their centres from
+        if warm == "sampling_fn":
+            extract_patches_by_sampling(im.pixels, wpc.points, (ph, pw), offsets=oarg, order=0, mode="constant")
+        else:
+            im.extract_patches(wpc, patch_shape=(ph, pw), sample_offsets=oarg,
+                               **({"order": 0, "mode": "nearest"} if warm == "nearest" else {"order": 1}))
 
     def extract(img_, as_single=True):
         if use_lm:
@@ -1007,8 +1044,14 @@ def c_writeback(case, ctx):
     wantR = G[:, gi][:, None]
     ctx.expect(eq_exact(R, wantR), "writeback.write_then_extract" + sfx, lambda: "%s: %s" % (info, short(R, wantR)))
 
+    def centres_untouched():
+        cur = (im.landmarks["pc"] if use_lm else pc).points
+        ctx.expect(np.array_equal(cur, np.array(centres, dtype=float)), "writeback.centres_mutated",
+                   lambda: "%s warm=%s: centres now %r" % (info, warm, cur.tolist()))
+
     # (c) list-of-Image form agrees with the ndarray form (methods only: the module function takes the array)
     if use_fn:
+        centres_untouched()
         return
     L = [Image(G[a, o].copy()) for a in range(n) for o in range(no)]
     wrote_l = put(im, L)
@@ -1017,6 +1060,8 @@ def c_writeback(case, ctx):
     back_l = put(im, L2)
     ctx.expect(eq_exact(back_l.pixels, px), "writeback.restore_list_form" + sfx, lambda: "%s: %s" % (info, short(back_l.pixels, px)))
     ctx.expect(parameter_mutation(before, digest(im)) is None, "writeback.receiver_mutated", info)
+    centres_untouched()
+
 
 # =============================================================================================
 # clause 6: the bounds helpers the crops are built on
@@ -1126,6 +1171,302 @@ def c_bounds(case, ctx):
     ctx.nontrivial(crosses)
 
 
+# =============================================================================================
+# clause 7: the same argument objects handed to a sequence of calls
+
+CENTRE_DTYPES = ("float64", "float64", "float64", "float32", "int")
+EXTRACT_OPS = ("method", "lm", "sampling_fn", "slice_fn")
+SET_OPS = ("set", "set_lm", "set_fn")
+CROP_OPS = ("crop_pc", "crop_lm", "crop")
+OPS_BY_HOLDER = {
+    # a PointCloud the caller keeps (built over a copy of, or directly on, the caller's array)
+    "pc": ["method", "method", "method", "sampling_fn", "sampling_fn", "slice_fn", "set", "set_fn", "crop_pc", "crop"],
+    # a landmark group of the image: the group's own PointCloud is what every call reads
+    "lm": ["method", "method", "method", "lm", "sampling_fn", "set_lm", "set", "crop_lm", "crop_pc", "crop"],
+    # a bare centres array handed to the module functions
+    "array": ["sampling_fn", "sampling_fn", "slice_fn", "slice_fn", "set_fn", "crop"],
+}
+
+
+@st.composite
+def s_reuse(draw):
+    geometry = draw(st.sampled_from(["grid", "free"]))
+    ph, pw = draw(st.integers(1, 6)), draw(st.integers(1, 6))
+    img = draw(s_image(ndims=(2,), lms=False))
+    case = {"img": img, "pshape": [ph, pw], "geometry": geometry}
+    if geometry == "grid":
+        # interior, pairwise disjoint patches (what set_patches needs), as in the write-back clause
+        ny, nx = draw(st.integers(1, 3)), draw(st.integers(1, 2))
+        pad = [draw(st.integers(0, 3)) for _ in range(4)]
+        gap = [draw(st.integers(0, 2)), draw(st.integers(0, 2))]
+        H = pad[0] + ny * ph + (ny - 1) * gap[0] + pad[1]
+        W = pad[2] + nx * pw + (nx - 1) * gap[1] + pad[3]
+        img["shape"] = [H, W]
+        if "mbox" in img:
+            img["mbox"] = [[0, H], [0, W]]
+        allc = [[i, j] for i in range(ny) for j in range(nx)]
+        k = draw(st.integers(1, min(4, len(allc))))
+        cells = list(draw(st.permutations(allc)))[:k]
+        centres = [[float(pad[0] + i * (ph + gap[0]) + ph // 2), float(pad[2] + j * (pw + gap[1]) + pw // 2)] for i, j in cells]
+        fr = None
+        if draw(st.sampled_from([False, False, True])):
+            # fractional part below one half: the nearest pixel (hence the patch) is unchanged
+            fr = [draw(st.sampled_from([0.0625, 0.25, 0.375, 0.4375])) for _ in range(2)]
+            centres = [[p[0] + fr[0], p[1] + fr[1]] for p in centres]
+        n_off = draw(st.integers(0, 3))
+        # shifted together by at most the padding the patches stay interior and disjoint
+        offsets = [[float(draw(st.integers(-pad[0], pad[1]))), float(draw(st.integers(-pad[2], pad[3])))] for _ in range(n_off)] or None
+    else:
+        H, W = img["shape"]
+        centres, fr = draw(s_centres(H, W, ph, pw, integer=draw(st.booleans())))
+        offsets = draw(s_offsets(frac_ok=fr is None))
+    case["centres"], case["offsets"] = centres, offsets
+    integer = fr is None
+    case["cdtype"] = draw(st.sampled_from([d for d in CENTRE_DTYPES if integer or d != "int"]))
+    holder = draw(st.sampled_from(["pc", "pc", "lm", "lm", "array"]))
+    case["holder"] = holder
+    case["copy"] = draw(st.booleans())  # PointCloud(points, copy=...): False shares the caller's array
+    case["pshape_form"] = draw(st.sampled_from(["tuple", "list", "ndarray"]))
+    case["int_offsets"] = draw(st.booleans())
+    # the crop request whose min / max arrays are re-used: a non-empty intersection with the image on every axis
+    b = [draw(s_axis_bounds(s_, ["in", "in", "border", "lo_out", "hi_out", "both_out"])) for s_ in img["shape"]]
+    case["cmin"], case["cmax"] = [x[0] for x in b], [x[1] for x in b]
+    ops = [o for o in OPS_BY_HOLDER[holder] if geometry == "grid" or o not in SET_OPS]
+    steps = []
+    for _ in range(draw(st.integers(2, 4))):
+        op = draw(st.sampled_from(ops))
+        stp = {"op": op}
+        if op in ("method", "sampling_fn"):
+            stp["order"] = draw(st.sampled_from([0, 0, 0, 1, 1, 2, 3]))
+            stp["mode"] = draw(st.sampled_from(["constant", "constant", "nearest", "nearest", "reflect", "wrap"]))
+        if op in EXTRACT_OPS:
+            stp["cval"] = 0.0 if op == "lm" else draw(s_cval(img["dtype"]))
+            stp["single"] = draw(st.booleans())
+        elif op in SET_OPS:
+            stp["content"] = draw(st.sampled_from(["random", "source"]))
+            stp["oi"] = draw(st.integers(0, len(offsets) - 1)) if offsets else None
+            stp["gseed"] = draw(st.integers(0, 2**16))
+        elif op in ("crop_pc", "crop_lm"):
+            stp["boundary"] = draw(st.sampled_from([0, 1, 1, 2, 3]))
+        steps.append(stp)
+    if integer and (offsets is None or all(v == math.floor(v) for o in offsets for v in o)) and draw(st.sampled_from([True, False, False])):
+        # both paths at order 0 / constant with one fill value on the same objects, in either order
+        cv = draw(s_cval(img["dtype"]))
+        pair = [{"op": "sampling_fn", "order": 0, "mode": "constant", "cval": cv, "single": True},
+                {"op": "slice_fn" if holder == "array" else draw(st.sampled_from(["slice_fn", "method"])),
+                 "order": 0, "mode": "constant", "cval": cv, "single": draw(st.booleans())}]
+        if draw(st.booleans()):
+            pair.reverse()
+        at = draw(st.integers(0, len(steps) - 2))
+        steps[at:at + 2] = pair
+    case["steps"] = steps
+    return case
+
+
+def c_reuse(case, ctx):
+    c = case["img"]
+    px, mask, im = build(c)
+    H, W = c["shape"]
+    ph, pw = case["pshape"]
+    centres, offsets = case["centres"], case["offsets"]
+    n, no = len(centres), (1 if offsets is None else len(offsets))
+    holder, steps = case["holder"], case["steps"]
+    integer = all(v == math.floor(v) for p in centres for v in p) and (offsets is None or all(v == math.floor(v) for p in offsets for v in p))
+
+    # ---- the argument objects, created once, and pristine copies of their values
+    cdt = {"float64": np.float64, "float32": np.float32, "int": np.int64}[case["cdtype"]]
+    c0 = np.array(centres, dtype=float).astype(cdt)  # pristine
+    user = c0.copy()  # the array the caller keeps
+    pcobj = None
+    if holder == "array":
+        carr = lambda: user
+    else:
+        pcobj = PointCloud(user, copy=case["copy"])
+        if holder == "lm":
+            im.landmarks["pc"] = pcobj
+            pcobj = im.landmarks["pc"]
+        carr = lambda: pcobj.points
+    ps = _pshape(case)
+    ps0 = np.array(case["pshape"])
+    oarg = _offsets_arg(case)
+    o0 = None if oarg is None else oarg.copy()
+    cmin, cmax = np.array(case["cmin"], dtype=float), np.array(case["cmax"], dtype=float)
+    cmin0, cmax0 = cmin.copy(), cmax.copy()
+    before_im = digest(im)
+    before_pc = None if pcobj is None else digest(pcobj)
+
+    def path_of(stp):
+        op = stp["op"]
+        if op in SET_OPS:
+            return "set"
+        if op in CROP_OPS:
+            return "crop"
+        if op == "sampling_fn" or (op == "method" and not (stp["order"] == 0 and stp["mode"] == "constant")):
+            return "sampling"
+        return "slice"
+
+    paths = [path_of(s_) for s_ in steps]
+    ctx.event("holder=%s%s centres=%s %s" % (holder, "" if holder == "array" else " copy=%s" % case["copy"], case["cdtype"],
+                                            "integer positions" if integer else "fractional positions"))
+    ctx.event("geometry=%s" % case["geometry"])
+    ctx.event("steps=%d" % len(steps))
+    ctx.event("sequence=%s" % ">".join(paths[:2]) + (">.." if len(paths) > 2 else ""))
+    for s_ in steps:
+        ctx.event("op=%s" % s_["op"])
+    ctx.event("patch=%s" % ("odd" if (ph % 2 or pw % 2) else "even"))
+    ctx.event("ch=%d cls=%s dtype=%s" % (c["ch"], c["cls"], c["dtype"]))
+    # non-trivial: a call that reads the centres comes after a different kind of call on the same objects
+    ctx.nontrivial(len(set(paths)) >= 2)
+    info0 = "cls=%s shape=%r ch=%d dtype=%s patch=%r(%s) centres=%r(%s, %s) offsets=%r" % (
+        c["cls"], c["shape"], c["ch"], c["dtype"], case["pshape"], case["pshape_form"], centres, case["cdtype"], holder, offsets)
+
+    # every argument object is compared with its state after the previous call (initially: as created), so a change is
+    # attributed to the call that made it and reported once
+    prev = {"centres": c0.copy(), "user": c0.copy(), "pc": before_pc, "im": before_im, "ps": ps0.copy(), "off": o0,
+            "cmin": cmin0.copy(), "cmax": cmax0.copy()}
+
+    def same(a, b):
+        return a.dtype == b.dtype and a.shape == b.shape and bool(np.array_equal(a, b))
+
+    def arguments_untouched(k, path):
+        where = "by_%s" % path
+        cur = carr()
+        if not ctx.expect(same(cur, prev["centres"]) and same(user, prev["user"]), "reuse.centres_mutated." + where,
+                          lambda: "%s after step %d of %r: centres now %r" % (info0, k, [s_["op"] for s_ in steps], cur.tolist())):
+            prev["centres"], prev["user"] = cur.copy(), user.copy()
+            if pcobj is not None:
+                prev["pc"] = digest(pcobj)
+        elif pcobj is not None:
+            d = digest(pcobj)
+            if not ctx.expect(parameter_mutation(prev["pc"], d) is None, "reuse.centres_mutated." + where,
+                              lambda: "%s after step %d: %r" % (info0, k, parameter_mutation(prev["pc"], d))):
+                prev["pc"] = d
+        if not ctx.expect(type(ps) is type(_pshape(case)) and np.array_equal(np.asarray(ps), prev["ps"]), "reuse.patch_shape_mutated." + where,
+                          lambda: "%s after step %d: now %r" % (info0, k, ps)):
+            prev["ps"] = np.array(ps)
+        if oarg is not None and not ctx.expect(same(oarg, prev["off"]), "reuse.sample_offsets_mutated." + where,
+                                               lambda: "%s after step %d: now %r" % (info0, k, oarg.tolist())):
+            prev["off"] = oarg.copy()
+        if not ctx.expect(same(cmin, prev["cmin"]) and same(cmax, prev["cmax"]), "reuse.crop_bounds_mutated",
+                          lambda: "%s after step %d: min %r max %r (given %r %r)" % (info0, k, cmin.tolist(), cmax.tolist(), cmin0.tolist(), cmax0.tolist())):
+            prev["cmin"], prev["cmax"] = cmin.copy(), cmax.copy()
+        d = digest(im)
+        if not ctx.expect(parameter_mutation(prev["im"], d) is None, "reuse.image_mutated." + where,
+                          lambda: "%s after step %d: %r" % (info0, k, parameter_mutation(prev["im"], d))):
+            prev["im"] = d
+
+    tops = [[int(math.floor(p[0])) - ph // 2, int(math.floor(p[1])) - pw // 2] for p in centres]  # grid geometry (fraction < 1/2)
+    exact0 = {}  # order 0 / constant results at integer positions, by (path, cval): the two paths must agree
+    for k, stp in enumerate(steps):
+        op, path = stp["op"], paths[k]
+        when = "first_call" if k == 0 else "later_call"
+        info = "%s | step %d of %r: %r" % (info0, k, [s_["op"] for s_ in steps], stp)
+        if op in EXTRACT_OPS:
+            order, mode, cval = stp.get("order", 0), stp.get("mode", "constant"), stp["cval"]
+            if op == "method":
+                res = im.extract_patches(pcobj, patch_shape=ps, sample_offsets=oarg, as_single_array=stp["single"],
+                                         order=order, mode=mode, cval=cval)
+            elif op == "lm":
+                res = im.extract_patches_around_landmarks("pc", patch_shape=ps, sample_offsets=oarg, as_single_array=stp["single"])
+            elif op == "sampling_fn":
+                res = extract_patches_by_sampling(im.pixels, carr(), ps, offsets=oarg, order=order, mode=mode, cval=cval)
+            else:
+                res = extract_patches_with_slice(im.pixels, carr(), ps, offsets=oarg, cval=cval)
+            arguments_untouched(k, path)
+            sig = "reuse.%s.%s" % (when, path)
+            if op in ("method", "lm") and not stp["single"]:
+                res = _to_array(res, n, no, ctx, sig)
+                if res is None:
+                    continue
+            if not ctx.expect(isinstance(res, np.ndarray) and res.shape == (n, no, c["ch"], ph, pw), sig + ".shape",
+                              lambda: "%s: got %r want %r" % (info, getattr(res, "shape", type(res).__name__), (n, no, c["ch"], ph, pw))):
+                continue
+            # judged against the centres / offsets the caller created, whatever happened in between
+            want, known, alt, _ = ref_patches(px, centres, (ph, pw), offsets, order, mode, cval, ambiguous_ok=True)
+            compare_patches(ctx, res, want, known, alt, c["dtype"], order, sig + (".order%d" % order if order else ""), info)
+            if integer and order == 0 and mode == "constant":
+                other = exact0.get(("sampling" if path == "slice" else "slice", cval))
+                if other is not None:
+                    ctx.event("slice and sampling compared: %s first" % ("sampling" if path == "slice" else "slice"))
+                    ctx.expect(eq_exact(res, other), "reuse.slice_vs_sampling", lambda: "%s: %s" % (info, short(res, other)))
+                exact0.setdefault((path, cval), res)
+        elif op in SET_OPS:
+            oi = stp["oi"]
+            off = [0, 0] if oi is None else [int(v) for v in offsets[oi]]
+            gi = 0 if oi is None else oi
+            rs = np.random.RandomState(stp["gseed"])
+            dt = np.dtype(c["dtype"])
+            shp = (n, no, c["ch"], ph, pw)
+            if stp["content"] == "source":
+                # the source blocks themselves (at every offset): writing them back must restore the image
+                offs = [[0, 0]] if offsets is None else offsets
+                G = np.empty(shp, dtype=dt)
+                for a in range(n):
+                    for o in range(no):
+                        r0, c0_ = tops[a][0] + int(offs[o][0]), tops[a][1] + int(offs[o][1])
+                        G[a, o] = px[:, r0:r0 + ph, c0_:c0_ + pw]
+            elif dt.kind == "b":
+                G = rs.rand(*shp) > 0.5
+            elif dt.kind in "iu":
+                G = rs.randint(int(np.iinfo(dt).min), int(np.iinfo(dt).max) + 1, size=shp, dtype=np.int64).astype(dt)
+            else:
+                G = (rs.standard_normal(shp) * 50).astype(dt)
+            want = px.copy()
+            for a in range(n):
+                r0, c0_ = tops[a][0] + off[0], tops[a][1] + off[1]
+                want[:, r0:r0 + ph, c0_:c0_ + pw] = G[a, gi]
+            Gc = G.copy()
+            kw = {} if oi is None else {"offset": tuple(off), "offset_index": oi}
+            if op == "set":
+                got = im.set_patches(G, pcobj, **kw).pixels
+            elif op == "set_lm":
+                got = im.set_patches_around_landmarks(G, group="pc", **kw).pixels
+            else:
+                got = im.pixels.copy()  # the module function writes into the array it is handed
+                set_patches_fn(G, got, carr(), np.array([off], dtype=np.intp), gi)
+            arguments_untouched(k, path)
+            ctx.expect(np.array_equal(G, Gc), "reuse.patches_argument_mutated", info)
+            ctx.expect(eq_exact(got, want), "reuse.%s.set_patches%s" % (when, ".restore" if stp["content"] == "source" else ""),
+                       lambda: "%s: %s" % (info, short(got, want)))
+        else:
+            if op == "crop":
+                rmin, rmax = list(cmin0), list(cmax0)
+            else:
+                b = stp["boundary"]
+                pts = np.array(centres, dtype=float)
+                rmin, rmax = list(pts.min(axis=0) - b), list(pts.max(axis=0) + b)
+            fmin = [int(math.floor(x)) for x in rmin]
+            cmx = [int(math.ceil(x)) for x in rmax]
+            bmin = [min(max(v, 0), s_) for v, s_ in zip(fmin, (H, W))]
+            bmax = [min(max(v, 0), s_) for v, s_ in zip(cmx, (H, W))]
+            due = all(h > l for l, h in zip(fmin, cmx)) and all(h > l for l, h in zip(bmin, bmax))
+            out = None
+            try:
+                if op == "crop":
+                    out = im.crop(cmin, cmax, constrain_to_boundary=True)
+                elif op == "crop_pc":
+                    out = im.crop_to_pointcloud(pcobj, boundary=b, constrain_to_boundary=True)
+                else:
+                    out = im.crop_to_landmarks("pc", boundary=b, constrain_to_boundary=True)
+            except ValueError as e:
+                # a degenerate / wholly outside request may be refused (judged in the crop clauses)
+                ctx.expect(not due, "reuse.%s.crop_refused" % when, lambda: "%s: %s %s" % (info, type(e).__name__, e))
+            arguments_untouched(k, path)
+            if not due:
+                ctx.event("crop request degenerate / outside: only the arguments are checked")
+                continue
+            if out is None:
+                continue
+            wantb = px[:, bmin[0]:bmax[0], bmin[1]:bmax[1]]
+            ctx.expect(eq_exact(out.pixels, wantb), "reuse.%s.crop_block" % when, lambda: "%s: %s" % (info, short(out.pixels, wantb)))
+            if holder == "lm":
+                gotp = out.landmarks["pc"].points
+                wantp = np.array(centres, dtype=float) - np.array(bmin, dtype=float)
+                ctx.expect(gotp.shape == wantp.shape and np.array_equal(gotp, wantp), "reuse.%s.crop_landmarks" % when,
+                           lambda: "%s: %s" % (info, short(gotp, wantp)))
+
+
+
 CLAUSES = [
     Clause("crop", c_crop, lambda: s_crop(["crop"]), quick=2600, thorough=70000, nt_floor=0.4,
            rule="Image.crop on 2-D..5-D images of every class and dtype; per axis and side inside / border / outside by 1..5 / wholly outside / degenerate, integer or k/8 fractional; constrain on/off/default; three-way reference (block, ImageBoundaryError, ValueError); non-trivial: crosses a border or fractional"),
@@ -1137,6 +1478,8 @@ CLAUSES = [
            rule="integer centres and offsets: slicing path == sampling path (order 0, constant) == loop reference, element-wise, including patches partly or wholly outside"),
     Clause("writeback", c_writeback, s_writeback, quick=1300, thorough=30000, nt_floor=0.4,
            rule="interior non-overlapping patch grids: extract->set restores, set generated content == loop reference, set->extract returns it, list and array forms agree, receiver untouched; offset / offset_index passed both, singly (missing offset = (0, 0), missing index = patches[:, 0]) or not at all; methods, around-landmarks (group given or defaulted) and the module function; non-trivial: >= 2 patches, an offset or a non-square patch"),
+    Clause("reuse", c_reuse, s_reuse, quick=1800, thorough=40000, nt_floor=0.4,
+           rule="the same argument objects (a PointCloud built over a copy of / directly on the caller's float64 / float32 / int centres array, a landmark group, or the bare array; the patch_shape and sample_offsets objects; crop min / max arrays) handed to a sequence of 2..4 calls drawn from extract_patches (slicing and resampling path, order 0..3, four modes), extract_patches_around_landmarks, the two module functions, set_patches / set_patches_around_landmarks / the module function (generated content, or the source blocks: restore), crop_to_pointcloud / crop_to_landmarks / crop: every call is judged by the loop / slicing references against the values the caller created, every argument object (and the image) must be unchanged after every call, and at integer positions order-0 constant results of the two paths must be identical in whichever order they ran; non-trivial: the sequence mixes at least two kinds of call (slice / sampling / set / crop)"),
     Clause("bounds", c_bounds, s_bounds, quick=900, thorough=20000, nt_floor=0.3,
            rule="the helpers the crops are built on, against np.nonzero / np.clip: BooleanImage.bounds_true / bounds_false (2-D..4-D masks, boundary -2..5 or defaulted, constrain_to_bounds on / off / defaulted, standalone and as MaskedImage.mask), Image.constrain_points_to_bounds (clip to [0, shape], argument untouched), constrain_landmarks_to_bounds (clip to [0, shape-1]); non-trivial: the true / false extent plus boundary leaves the image (so clipping, or not clipping, is observable)"),
 ]
